@@ -43,6 +43,9 @@ def _stats(chk, ans):
     """ok builds=.. events=.. steps=.. nodes=.. maxnodes=.. maxratio=.. ratiohist=a,b,c,d,e,f -> accumulated in chk.notes"""
     kv = dict(x.split("=", 1) for x in ans.split(" ")[1:] if "=" in x)
     n = chk.notes
+    if int(kv.get("reduction_missed", 0)):
+        n["builds_accepted_only_by_the_plain_search (a search reduction lost the run: tell P24)"] = \
+            n.get("builds_accepted_only_by_the_plain_search (a search reduction lost the run: tell P24)", 0) + int(kv["reduction_missed"])
     for k in ("builds", "events", "steps", "nodes"):
         n["acceptance_" + k] = n.get("acceptance_" + k, 0) + int(kv.get(k, 0))
     n["acceptance_max_nodes_per_build"] = max(n.get("acceptance_max_nodes_per_build", 0), int(kv.get("maxnodes", 0)))
@@ -69,6 +72,29 @@ def accept_history(chk, sess, lines, tag, origin, expect=None):
         chk.violation("driver-crash", "engine_driver exited with status %s" % rc, dict(scenario=lines, stderr=err[-2000:], origin=origin), found_input=True,
                       broken="memory safety of the engine across builds (e.g. rules left IsScanning by a build that returned success)")
         return False
+    # the acceptance verdict is computed first (and counted on its own), the independent oracles below keep their priority in the report
+    t0 = time.time()
+    # once several histories have been rejected the tie is reported broken anyway: the confirming plain search of further rejections is skipped
+    nrej = chk.notes.get("histories_rejected_by_acceptance", 0)
+    ans = acc_model(sess).ask("accept %s %s%s" % (sp, tp, " 0" if nrej >= 8 else ""))
+    dt = time.time() - t0
+    chk.notes["histories"] = chk.notes.get("histories", 0) + 1
+    chk.notes["acceptance_search_seconds_max"] = round(max(chk.notes.get("acceptance_search_seconds_max", 0.0), dt), 3)
+    chk.notes["acceptance_search_seconds_total"] = round(chk.notes.get("acceptance_search_seconds_total", 0.0) + dt, 3)
+    if not ans.startswith("ok "):
+        chk.notes["histories_rejected_by_acceptance"] = chk.notes.get("histories_rejected_by_acceptance", 0) + 1
+        if "SEARCH-BUDGET-EXHAUSTED" in ans:
+            chk.notes["histories_rejected_inconclusively (search budget)"] = chk.notes.get("histories_rejected_inconclusively (search budget)", 0) + 1
+        keep = os.environ.get("VERIF_ACC_KEEP")          # debugging aid: keep scenario + trace of every rejected history in this directory
+        if keep:
+            import shutil
+            os.makedirs(keep, exist_ok=True)
+            i = chk.notes["histories_rejected_by_acceptance"]
+            shutil.copy(sp, os.path.join(keep, "rej%d.scenario.txt" % i))
+            shutil.copy(tp, os.path.join(keep, "rej%d.impl.txt" % i))
+            open(os.path.join(keep, "rej%d.verdict.txt" % i), "w").write("%.3fs %s\n" % (dt, ans))
+        if len(chk.notes.setdefault("first_rejections", [])) < 5:
+            chk.notes["first_rejections"].append(dict(origin=origin, acceptance=ans[:500]))
     if expect is not None:
         got = ["fail" if (b["result"] or "").startswith("result EMPTY") else "ok" for b in E.split_builds(out) if b["hdr"] != "restart"]
         if got != expect:
@@ -83,12 +109,8 @@ def accept_history(chk, sess, lines, tag, origin, expect=None):
             bad += errs
     if bad:
         chk.violation("protocol", "the per-task protocol is violated on the real engine: %s" % bad[:3],
-                      dict(scenario=lines, implementation=out, origin=origin), found_input=True, broken="task protocol / at-most-once on the implementation")
+                      dict(scenario=lines, implementation=out, origin=origin, acceptance=ans), found_input=True, broken="task protocol / at-most-once on the implementation")
         return False
-    t0 = time.time()
-    ans = acc_model(sess).ask("accept %s %s" % (sp, tp))
-    dt = time.time() - t0
-    chk.notes["acceptance_search_seconds_max"] = round(max(chk.notes.get("acceptance_search_seconds_max", 0.0), dt), 3)
     nexec = sum(1 for x in out if x.startswith("create "))
     ncyc = sum(1 for x in out if x.startswith("cycle"))
     if any(x == "cycle" for x in out):
@@ -101,7 +123,14 @@ def accept_history(chk, sess, lines, tag, origin, expect=None):
                       "any completion order): " + ans[:600],
                       dict(scenario=lines, implementation=out, model_explanation=ans, origin=origin), found_input=False, broken=BROKEN)
         return False
-    _stats(chk, ans)
+    kv = _stats(chk, ans)
+    if int(kv.get("reduction_missed", 0)) and os.environ.get("VERIF_ACC_KEEP"):
+        import shutil
+        keep = os.environ["VERIF_ACC_KEEP"]
+        os.makedirs(keep, exist_ok=True)
+        i = chk.notes["histories"]
+        shutil.copy(sp, os.path.join(keep, "missed%d.scenario.txt" % i))
+        shutil.copy(tp, os.path.join(keep, "missed%d.impl.txt" % i))
     chk.notes["cycle_reports_accepted"] = chk.notes.get("cycle_reports_accepted", 0) + ncyc
     chk.count((tag.rstrip("0123456789"), nexec, ncyc) if nexec > 3 else None, n=max(1, nexec))
     return True
